@@ -207,8 +207,9 @@ impl<S: MdkStorageProvider> World<S> {
                 self.set_ts(ts);
                 let gid = self.gid.clone();
                 // OpenMLS sweeps the creator's pending proposals into the commit: members they remove (ground truth of the content)
+                // (a pubkey shared by two devices denotes the device that asked to leave)
                 let swept: Vec<usize> = self.clients[m].mdk.pending_removed_members_pubkeys(&gid).unwrap_or_default().iter()
-                    .filter_map(|pk| self.clients.iter().position(|c| c.keys.public_key() == *pk)).collect();
+                    .filter_map(|pk| (0..self.clients.len()).filter(|i| self.clients[*i].keys.public_key() == *pk).max_by_key(|i| self.leave_ev.contains_key(i))).collect();
                 let victim: Option<usize> = kind.strip_prefix("rv").and_then(|v| v.parse().ok());
                 let vpk = victim.map(|v| self.clients[v].keys.public_key());
                 // ground truth of a removal: every client (device) of the removed identity
@@ -250,7 +251,7 @@ impl<S: MdkStorageProvider> World<S> {
                 let is_admin = self.admin_mask & (1 << m) != 0;
                 // OpenMLS sweeps the builder's pending proposals into the commit (by reference), exactly as for MDK's own commits
                 let swept: Vec<usize> = self.clients[m].mdk.pending_removed_members_pubkeys(&self.gid).unwrap_or_default().iter()
-                    .filter_map(|pk| self.clients.iter().position(|c| c.keys.public_key() == *pk)).collect();
+                    .filter_map(|pk| (0..self.clients.len()).filter(|i| self.clients[*i].keys.public_key() == *pk).max_by_key(|i| self.leave_ev.contains_key(i))).collect();
                 let built = catch_unwind(AssertUnwindSafe(|| -> Option<Vec<u8>> {
                     let mdk = &self.clients[m].mdk;
                     let mut mls = mdk.load_mls_group(&self.gid).ok()??;
